@@ -367,7 +367,7 @@ UNIT = Unit(
                      Rw("R5", r"line\.to_string\(\)", "to_owned_string(line)")],
            requires=[("msg-expanded", "state.message.wf() && state.message.has_width(self.tab_width)")],
            ensures=[("C10-one-line-per-template-line",
-                     "lvs(final(lines)@) == lvs(old(lines)@) + bar_views(split_nl_spec(match wview(*wide) { WSpec::NoWide => old(cur)@, w => wide_text(w, old(cur)@, *self, *state, target_width) }))"),
+                     "lvs(final(lines)@) == lvs(old(lines)@) + bar_views(split_nl_spec(match wview(*wide) { WSpec::NoWide => old(cur)@, w => wide_text(w, old(cur)@, *self, *state, target_width) }))", ["C10", "C01", "C02", "C19"]),
                     ("cur-cleared", "final(cur)@.len() == 0")],
            proofs=[(r"let __sp = split_nl", "before", "        let ghost l0 = lines@; let ghost et = expanded@;"),
                    (r"break;", "before", """                proof {
